@@ -114,3 +114,14 @@ Qed.
 Theorem derivation_has_translation g codes t_err start w d :
   translation (full g) codes t_err start w d -> translation g codes t_err start w (proj g d).
 Proof. unfold translation, translation_a, trans_nt. intros (n & H). exists n. apply full_to_orig. exact H. Qed.
+
+(* E : E + E # plus (0 2) | a # 0   (terminals a=0 +=1, nonterminal E=0) on a + a + a: two derivation trees, whose
+   translations plus(a,plus(a,a)) and plus(plus(a,a),a) differ *)
+Example full_info_ex :
+  let g := [ {| t_lhs := 0; tr_rhs := [N 0; T 1; N 0]; tr_anode := Some (7, 1%Z); tr_slots := [Some 0; Some 2] |};
+             {| t_lhs := 0; tr_rhs := [T 0]; tr_anode := None; tr_slots := [Some 0] |} ] in
+  option_map (@length tree) (all_translations 20 (full g) [97%Z; 43%Z] 9 0 [0; 1; 0; 1; 0]) = Some 2 /\
+  option_map (@length tree) (all_translations 20 g [97%Z; 43%Z] 9 0 [0; 1; 0; 1; 0]) = Some 2 /\
+  option_map (map (proj g)) (all_translations 20 (full g) [97%Z; 43%Z] 9 0 [0; 1; 0; 1; 0]) =
+    all_translations 20 g [97%Z; 43%Z] 9 0 [0; 1; 0; 1; 0].
+Proof. vm_compute. auto. Qed.
